@@ -151,10 +151,19 @@ fn entry_name(kind: char, idx: u32) -> String {
 fn event_of(id: u64, size: usize, ovh: usize) -> LogEvent {
     let mut msg = format!("e{id:09}");
     assert!(size >= ovh + msg.len(), "event size {size} too small");
-    while msg.len() < size - ovh {
+    // every fifth event ends with a non-ASCII character directly in front of a character that needs an escape
+    // (2 + 2 bytes on the line): text as real messages have it (`error reading "/srv/caf\u{e9}"`)
+    let special = id % 5 == 3 && size - ovh >= msg.len() + 4;
+    let fill_to = if special { size - ovh - 4 } else { size - ovh };
+    while msg.len() < fill_to {
         msg.push('x');
     }
-    LogEvent::new(Level::Info, tag("msg", msg))
+    let mut text = msg;
+    if special {
+        text.push('\u{e9}');
+        text.push('"');
+    }
+    LogEvent::new(Level::Info, tag("msg", text))
 }
 
 /// (time_ns of first line, lines as (id,size)) of a generated log file; None if not parsable
